@@ -573,7 +573,7 @@ def _read_wav(path):
     return [vals[c::nch] for c in range(nch)]
 
 
-def check_vectors(repo=None):
+def check_vectors(repo=None, only=None):
     """decode the sph2pipe vectors with the MODEL decoder; -> list of (name, ok, message)"""
     import glob
 
@@ -581,6 +581,8 @@ def check_vectors(repo=None):
     out = []
     for p in sorted(glob.glob(os.path.join(repo, "tests", "audio", "*_shn.sph"))):
         name = os.path.basename(p)[:-8]
+        if only is not None and name != only:
+            continue
         with open(p, "rb") as f:
             fields, payload = parse_sphere(f.read())
         m, _ = decode_payload(payload)
